@@ -27,6 +27,8 @@ func main() {
 		os.Exit(tlspeerMain(os.Args[2:]))
 	case "mdnsview":
 		os.Exit(mdnsviewMain(os.Args[2:]))
+	case "avahistep":
+		os.Exit(avahistepMain(os.Args[2:]))
 	case "connstep":
 		os.Exit(connstepMain(os.Args[2:]))
 	default:
